@@ -48,7 +48,7 @@ def gen_c16(rng: random.Random, sid: str, thorough: bool) -> dict:
     sc['layout'] = rng.choice(['single', 'split', 'dual', 'dual'])
     sc['v6src'] = sc['layout'] == 'dual' and rng.random() < 0.7
     # the copy follows in the same instant or a few milliseconds later (nothing else is delivered in between)
-    sc['dup_gap'] = rng.choice([0, 0, 1, 3, 40, 700])
+    sc['dup_gap'] = rng.choice([0, 0, 1, 3, 40])
     return sc
 
 
@@ -58,14 +58,17 @@ def obs(tr: dict, sigs: Dict[str, int]) -> List[dict]:
         if e['ev'] == 'send':
             body = json.dumps([e.get('bad'), e.get('dst'), e.get('port'), e.get('sock'), e.get('id'), e.get('flags'), e.get('qs'),
                                e.get('an'), e.get('ns'), e.get('ar'), e.get('len')])
-            out.append({'k': 'send', 't': e['t'], 'mc': bool(e.get('mc')), 'sig': sigs.setdefault(body, len(sigs) + 1)})
+            body2 = json.dumps([e.get('bad'), e.get('dst'), e.get('port'), e.get('sock'), e.get('flags'), e.get('qs'),
+                                e.get('an'), e.get('ns'), e.get('ar'), e.get('len')])          # the same without the message id
+            out.append({'k': 'send', 't': e['t'], 'mc': bool(e.get('mc')), 'sig': sigs.setdefault(body, len(sigs) + 1),
+                        'sig2': sigs.setdefault(body2, len(sigs) + 1)})
         elif e['ev'] == 'cb':
             body = json.dumps(['cb', e['kind'], e['ty'], e['name']])
-            out.append({'k': 'cb', 't': e['t'], 'mc': False, 'sig': sigs.setdefault(body, len(sigs) + 1)})
+            out.append({'k': 'cb', 't': e['t'], 'mc': False, 'sig': sigs.setdefault(body, len(sigs) + 1), 'sig2': 0})
         elif e['ev'] == 'lcall':
-            out.append({'k': 'lc', 't': e['t'], 'mc': False, 'sig': e['n']})
+            out.append({'k': 'lc', 't': e['t'], 'mc': False, 'sig': e['n'], 'sig2': 0})
         elif e['ev'] == 'exc':
-            out.append({'k': 'exc', 't': e['t'], 'mc': False, 'sig': 0})
+            out.append({'k': 'exc', 't': e['t'], 'mc': False, 'sig': 0, 'sig2': 0})
     return out
 
 
@@ -81,7 +84,8 @@ def record_pair(job: Tuple[dict, Any]) -> dict:
     dup = rf.Recorder(dup_sc).run()
     sigs: Dict[str, int] = {}
     return {'id': '%s/%s' % (sc['id'], mode), 'ref': obs(ref, sigs), 'dup': obs(dup, sigs),
-            'qudups': sorted({d['t'] for d in dup['dups'] if d['qu']}), 'ndups': len(dup['dups']),
+            'qudups': [{'t': t, 'tc': tc} for (t, tc) in sorted({(d['t'], d['tc']) for d in dup['dups'] if d['qu']})],
+            'ndups': len(dup['dups']),
             'n_inj': ref.get('events') and sum(1 for e in ref['events'] if e['ev'] == 'recv' and e.get('inj')) or 0,
             'sc': sc['id'], 'mode': mode}
 
@@ -117,9 +121,9 @@ def run_pairs(ctx: Ctx, jobs: List[Tuple[dict, Any]]) -> None:
         d = p['dup'][pos - 1] if 0 < pos <= len(p['dup']) else None
         disc = 'plain'
         tdiv = d['t'] if d is not None else None
-        if clause == 'C16_NoExtraMulticast' and d is not None and d['t'] in p['qudups']:
+        if clause == 'C16_NoExtraMulticast' and d is not None and d['t'] in [q['t'] for q in p['qudups']]:
             disc = 'extra-multicast-at-duplicated-qu-query'
-        elif clause in ('C16_NoExtraMulticast', 'C16_NothingLost') and tdiv is not None and any(tdiv - 1500 <= q <= tdiv for q in p['qudups']):
+        elif clause in ('C16_NoExtraMulticast', 'C16_NothingLost') and tdiv is not None and any(tdiv - 1500 <= q['t'] <= tdiv for q in p['qudups']):
             # the copy of a QU query was processed as a whole: its QM answers were queued a second time, which adds a
             # multicast or moves the flush of the aggregation queue
             disc = 'after-duplicated-qu-query'
@@ -134,7 +138,7 @@ def run_pairs(ctx: Ctx, jobs: List[Tuple[dict, Any]]) -> None:
         'distinct_nontrivial': sum(1 for p in pairs if p['ndups'] > 0 and len(p['ref']) > 5),
         'rule': 'traffic histories (queries of every kind incl. QU, probes, TC trains, legacy; responses new/refresh/goodbye/flush) '
                 'against an instance with registered services, a browser and a record listener; one duplicated run with every '
-                'injected datagram doubled plus one run per datagram index; non-trivial = pairs with at least one duplication and '
+                'injected datagram doubled, one with every datagram except QU queries doubled, plus one run per datagram index; non-trivial = pairs with at least one duplication and '
                 'more than 5 observable events',
         'duplicated_datagrams': sum(p['ndups'] for p in pairs), 'qu_duplicates': sum(len(p['qudups']) for p in pairs),
         'accepted': accepted, 'rejections_by_clause': clause_counts,
@@ -151,6 +155,7 @@ def run(ctx: Ctx) -> None:
         sc = gen_c16(rng, 'c16-%d' % k, ctx.thorough)
         n_inj = sum(1 for s in sc['steps'] if s['op'] in ('query', 'resp'))
         jobs.append((sc, 'all'))
+        jobs.append((sc, 'allnq'))
         idxs = list(range(1, n_inj + 1))
         rng.shuffle(idxs)
         for i in idxs[:ctx.pick(4, 12)]:
